@@ -62,7 +62,8 @@ def fresh(shape):
     hk = ("md5", "sha256") if shape == "noncanonical-hashes" else ("MD5", "SHA-256")
     ext = {"source_name": "s", "url": "u", "hashes": {hk[0]: MD5}}
     d = dict(type="malware", spec_version="2.1", id="malware--" + U + "1", created=TS, modified=TS, name="n", is_family=False, labels=["a", "b"],
-             external_references=[ext], granular_markings=[{"marking_ref": RED.id, "selectors": ["name", "labels"]}], object_marking_refs=[GREEN.id],
+             external_references=[ext], granular_markings=[{"marking_ref": RED.id, "selectors": ["name", "labels"]}, {"lang": "en", "selectors": ["name"]}, {"marking_ref": GREEN.id, "selectors": ["is_family"]}],
+             object_marking_refs=[GREEN.id],
              kill_chain_phases=[{"kill_chain_name": "k", "phase_name": "p"}], x_custom={"k": [1, {"z": 2}]})
     if shape == "aliased":
         d["external_references"] = [ext, ext]
@@ -165,6 +166,9 @@ def ops():
         "marking:remove-gran-dict": lambda a: markings.remove_markings(a["d"], a["red"].id, ["name"]),
         "marking:clear-gran-dict": lambda a: markings.clear_markings(a["d"], ["name"]),
         "marking:clear-gran-obj": lambda a: markings.clear_markings(a["o"], ["labels"]),
+        "marking:clear-gran-dict-single-selector-marking": lambda a: markings.clear_markings(a["d"], ["is_family"]),
+        "marking:set-gran-dict-single-selector-marking": lambda a: markings.set_markings(a["d"], L(a["marks"])[:1], ["is_family"]),
+        "marking:remove-gran-dict-single-selector-marking": lambda a: markings.remove_markings(a["d"], stix2.TLP_GREEN.id, ["is_family"]),
         "marking:set-gran-dict": lambda a: markings.set_markings(a["d"], L(a["marks"]), ["name"]),
         "marking:set-gran-obj": lambda a: markings.set_markings(a["o"], L(a["marks"]), ["name"]),
         "marking:add-obj-level-obj": lambda a: markings.add_markings(a["o"], L(a["marks"])[:1]),
